@@ -221,7 +221,13 @@ def ref(e, ent, tz="UTC"):
     if f == "upper":
         return ("s", t[0].upper())
     if f == "initcap":
-        return ("s", " ".join((w.lower()[:1].upper() + w.lower()[1:]) for w in t[0].split()))
+        # "first letter of each word upper case, all other letters lower case": nothing is said about the blanks
+        # between the words, so they stay as they are
+        res, start = [], True
+        for ch in t[0]:
+            res.append(ch.upper() if start else ch.lower())
+            start = ch.isspace()
+        return ("s", "".join(res))
     if f == "length":
         return ("n", float(len(t[0])))
     if f == "trim":
@@ -234,7 +240,7 @@ def ref(e, ent, tz="UTC"):
         s = t[0]
         pos = int(t[1])
         ln = int(t[2]) if len(t) > 2 else None
-        if pos == 0 or ln == 0 or abs(pos) > len(s):
+        if pos == 0 or abs(pos) > len(s) or (ln is not None and ln < 0):
             raise DC()
         start = pos - 1 if pos > 0 else len(s) + pos
         return ("s", s[start:] if ln is None else s[start:start + ln])
